@@ -23,6 +23,8 @@ type WElem struct {
 	Fields []string `json:",omitempty"` // struct: ["*"] or names; fieldsof: names
 	Ptr    bool     `json:",omitempty"` // fieldsof: new(*T) instead of new(T)
 	Paren  bool     `json:",omitempty"` // the element is written in parentheses
+	NilPtr bool     `json:",omitempty"` // bind / ivalue / fieldsof: type arguments written (*T)(nil) instead of new(T)
+	ImplAlias string `json:",omitempty"` // bind: the implementation is spelled through this alias of its struct (declared next to it), only here
 }
 
 type WSet struct {
@@ -89,7 +91,7 @@ type WOpts struct {
 }
 
 var WireFeatures = []string{"bind", "bind-value-impl", "value", "ivalue", "struct", "struct-fields", "struct-value-consumer", "fieldsof", "fieldsof-value", "fieldsof-ptr",
-	"sets", "nested-sets", "inline-sets", "inline-sets-deep", "struct-unexported-field", "ext-alias-suffix", "ext-name-differs-from-path", "ext-alias-equals-directory", "composite", "same-name-packages-across-files", "fieldsof-twice", "second-injector", "twin-types-in-same-named-packages", "value-ext-var", "build-in-panic", "wire-set-alias-var", "ivalue-concrete-also-provided", "pkg-level-name-equals-aliased-package", "struct-field-named-like-package", "struct-field-named-like-type", "bind-two-interfaces", "wire-paren", "struct-keyword-field", "struct-noinject-tag", "struct-no-fields", "named-alias", "wire-import-alias", "wire-legacy-build-tag", "wire-sets-in-var-block", "value-ext-nested-selector", "decoy-constructor-in-migrated-package", "struct-in-ext-package", "fieldsof-in-ext-package", "err", "args", "unused-arg", "multi-file", "ext", "bind-foreign-ctor", "bind-split-set", "multi-result"}
+	"sets", "nested-sets", "inline-sets", "inline-sets-deep", "struct-unexported-field", "ext-alias-suffix", "ext-name-differs-from-path", "ext-alias-equals-directory", "composite", "same-name-packages-across-files", "fieldsof-twice", "second-injector", "twin-types-in-same-named-packages", "value-ext-var", "build-in-panic", "bind-three-interfaces", "struct-unselected-field-of-other-package", "wire-nil-pointer-type-args", "bind-impl-through-alias", "composite-anon-struct", "wire-set-alias-var", "ivalue-concrete-also-provided", "pkg-level-name-equals-aliased-package", "struct-field-named-like-package", "struct-field-named-like-type", "bind-two-interfaces", "wire-paren", "struct-keyword-field", "struct-noinject-tag", "struct-no-fields", "named-alias", "wire-import-alias", "wire-legacy-build-tag", "wire-sets-in-var-block", "value-ext-nested-selector", "decoy-constructor-in-migrated-package", "struct-in-ext-package", "fieldsof-in-ext-package", "err", "args", "unused-arg", "multi-file", "ext", "bind-foreign-ctor", "bind-split-set", "multi-result"}
 
 func WAllowAll(except ...string) map[string]bool {
 	m := map[string]bool{}
@@ -122,6 +124,7 @@ type wgen struct {
 	// types the requested type's provider takes from them
 	twinUnits []int
 	twinWant  []TypeID
+	wantExtF  bool
 }
 
 func (g *wgen) want(f, label string, pct int) bool {
@@ -245,7 +248,7 @@ func (g *wgen) freshType(pkg string) TypeID {
 			if rapid.Bool().Draw(g.rt, "compptr") {
 				s = g.ptrTo(s)
 			}
-			switch rapid.IntRange(0, 6).Draw(g.rt, "compkind") {
+			switch rapid.IntRange(0, 7).Draw(g.rt, "compkind") {
 			case 4:
 				// func(K) T
 				g.w.AddFeature("composite-func")
@@ -254,6 +257,10 @@ func (g *wgen) freshType(pkg string) TypeID {
 			case 5:
 				g.w.AddFeature("composite-func")
 				return g.addType(Type{Kind: KFunc, Elem: s})
+			case 7:
+				// anonymous struct type: struct{ A T }
+				g.w.AddFeature("composite-anon-struct")
+				return g.addType(Type{Kind: KAStruct, Elem: s})
 			case 6:
 				// instantiated generic type Box[T]
 				g.w.AddFeature("composite-generic")
@@ -435,6 +442,7 @@ func GenWire(rt *rapid.T, o WOpts) *WCase {
 	}
 	g.assemble()
 	g.setAliases()
+	g.oldSpellings()
 	g.parens()
 	// a package-level identifier of the migrated package has the NAME of an external package that
 	// every file imports under an alias: a migrated file must not import it under its plain name
@@ -444,6 +452,9 @@ func GenWire(rt *rapid.T, o WOpts) *WCase {
 			g.used[e.Name] = true
 			g.c.PkgNames = append(g.c.PkgNames, e.Name)
 		}
+	}
+	if g.wantExtF {
+		g.c.Exts = append(g.c.Exts, Ext{Key: "extf", Path: "x/onlyfield", Name: "onlyfield"})
 	}
 	return g.w
 }
@@ -549,6 +560,13 @@ func (g *wgen) genProv(last bool) {
 				it2 := g.addType(Type{Kind: KIface, Name: g.name("I"), Impl: res})
 				g.c.Types[int(it2)].Method = "VH" + g.c.T(it2).Name
 				g.addUnit(WElem{Kind: "bind", Iface: it2, Impl: res}, []TypeID{res}, []TypeID{it2})
+				if rapid.Bool().Draw(g.rt, "bind3") {
+					// ... and to a third one
+					it3 := g.addType(Type{Kind: KIface, Name: g.name("I"), Impl: res})
+					g.c.Types[int(it3)].Method = "VH" + g.c.T(it3).Name
+					g.addUnit(WElem{Kind: "bind", Iface: it3, Impl: res}, []TypeID{res}, []TypeID{it3})
+					g.w.AddFeature("bind-three-interfaces")
+				}
 			}
 			g.decoy(p)
 			_ = ui
@@ -661,6 +679,13 @@ func (g *wgen) genStruct() {
 			}
 		}
 		req = nreq
+	}
+	if extPkg == "" && len(fields) > 0 && fields[0] != "*" && g.o.Allow["ext"] && g.want("struct-unselected-field-of-other-package", "unselfield", 40) {
+		// one more field that is NOT in the field list; its type comes from a package nothing
+		// else in the configuration mentions
+		g.wantExtF = true // the package is added to the case at the very end (nothing else may pick it)
+		ft := g.ptrTo(g.addType(Type{Kind: KStruct, Name: g.extTypeName("extf"), Pkg: "extf"}))
+		s.Fields = append(s.Fields, Field{Name: "FX", Type: ft})
 	}
 	sid := g.addType(s)
 	pid := g.ptrTo(sid)
@@ -791,6 +816,41 @@ func (g *wgen) setAliases() {
 				}
 			}
 			walk(es[i].Inline)
+		}
+	}
+	for fi := range g.w.Files {
+		f := &g.w.Files[fi]
+		for si := range f.Sets {
+			walk(f.Sets[si].Elems)
+		}
+		for ii := range f.Injectors {
+			walk(f.Injectors[ii].Elems)
+		}
+	}
+}
+
+// oldSpellings rewrites some type arguments to the pre-new(T) spelling (*T)(nil) and lets some
+// bindings name their implementation through an alias that nothing else uses.
+func (g *wgen) oldSpellings() {
+	var walk func(es []WElem)
+	walk = func(es []WElem) {
+		for i := range es {
+			e := &es[i]
+			walk(e.Inline)
+			switch e.Kind {
+			case "bind", "ivalue", "fieldsof":
+				if g.o.Allow["wire-nil-pointer-type-args"] && rapid.IntRange(0, 5).Draw(g.rt, "nilptr") == 5 {
+					e.NilPtr = true
+					g.w.AddFeature("wire-nil-pointer-type-args")
+				}
+			}
+			if e.Kind == "bind" && g.o.Allow["bind-impl-through-alias"] {
+				if st := g.c.StructOf(e.Impl); st != nil && st.Pkg == "" && st.AliasSpell == "" && rapid.IntRange(0, 4).Draw(g.rt, "implalias") == 4 {
+					e.ImplAlias = g.name("H")
+					g.c.ExtraAliases = append(g.c.ExtraAliases, [2]string{e.ImplAlias, st.Name})
+					g.w.AddFeature("bind-impl-through-alias")
+				}
+			}
 		}
 	}
 	for fi := range g.w.Files {
